@@ -13,11 +13,20 @@ import (
 // BigVal is a value much larger than any buffer-size constant in the code under test.
 var BigVal = strings.Repeat("0123456789abcdef", 200)
 
+// Long keys and qualifiers: 128 bytes and more (the length prefix of the stored encoding needs a second byte), two of
+// them differing only in their last byte.
 var (
-	Keys       = []string{"a", "a\x00", "a\x00\x00", "ab", "b", "\x00", "\xff", "a\xff", "a\nb"}
+	LongKey1 = "L" + strings.Repeat("k", 199) + "1"
+	LongKey2 = "L" + strings.Repeat("k", 199) + "2"
+	LongKey3 = "M" + strings.Repeat("m", 127)
+	LongQual = "Q" + strings.Repeat("q", 140)
+)
+
+var (
+	Keys       = []string{"a", "a\x00", "a\x00\x00", "ab", "b", "\x00", "\xff", "a\xff", "a\nb", LongKey1, LongKey2, LongKey3}
 	Fams       = []string{"f1", "f2"} // families of the schema
 	UnknownFam = "zz"
-	Quals      = []string{"", "q", "q\x00", "\xff", "r", "q\nr"}
+	Quals      = []string{"", "q", "q\x00", "\xff", "r", "q\nr", LongQual}
 	Vals       = []string{"", "v", "w1", "\x00\xff\n", "value-three", "\xe4\xf6", BigVal}
 	GoodTS     = []int64{0, 1000, 2000, 3000, model.MaxValidTS}
 	BadTS      = []int64{-2, 1500, math.MaxInt64, -1000, 999}
